@@ -18,7 +18,7 @@ import runner as R
 
 RULE = ("exhaustive: all interleavings of 2-3 views x 2-3 ops (block reads, seeks) over shared parents (shared base handle; shared offset window; "
         "chains over one shared partition stream; raw-sector (2352) base shared); random: 60-step schedules over 2-4 views with 1-2 levels of shared ancestors; "
-        "image level: sample streams of generated AKAI (multi-partition, stereo pairs) and CDDA images interleaved with `children` listings. "
+        "image level: sample streams of generated AKAI (multi-partition, stereo pairs), Roland S-7xx (samples with cluster_top > 0 shared by several performances, directories realised in traversal and in random order) and CDDA images interleaved with `children` listings. "
         "Non-trivial = schedule switches views at least once between two reads; distinct = distinct (forest, schedule)")
 
 
@@ -198,8 +198,15 @@ def akai_test_image(rng):
 def w_image(pid, tier, seed, job):
     ctx = F.Ctx(pid, tier, seed)
     rng = random.Random(job)
-    kind = "cdda" if job % 3 == 2 else "akai"
-    if kind == "akai":
+    kind = "cdda" if job % 3 == 2 else ("roland" if job % 3 == 1 and job % 2 == 0 else "akai")
+    if kind == "roland":
+        # S-7xx: samples with leading clusters (cluster_top > 0) shared by several performances / volumes, realised in any order
+        from props import c02 as C2
+        import roland_writer as W
+        spec = C2.fixed_trees()[[n for n, _ in C2.fixed_trees()].index("shared sample with cluster_top > 0 in several performances")][1] \
+            if job % 4 == 0 else C2.gen_tree(rng)
+        tmp = R.TempImage(W.image_bytes(C2.build(spec)), "r.img")
+    elif kind == "akai":
         img, parts = akai_test_image(rng)
         tmp = R.TempImage(img, "a.img")
     else:
@@ -213,13 +220,20 @@ def w_image(pid, tier, seed, job):
         # isolated: fresh image per stream
         def streams_of(image):
             return [(p, el.to_generalized().data_streams[0].stream) for p, el in R.walk_samples(image)]
+
+        def navigate(image, p):
+            node = image
+            for comp in p:
+                node = [ch for ch in node.children if ch.safe_name == comp][0]
+            return node.to_generalized().data_streams[0].stream
         im0 = R.open_image(path)
         names = [p for p, _ in streams_of(im0)]
         R.close_image(im0)
         iso = {}
         for p in names:
+            # isolated: a freshly opened image in which nothing but the way down to this one sample is realised
             im = R.open_image(path)
-            st = dict(streams_of(im))[p]
+            st = navigate(im, p)
             iso[p] = b""
             while True:
                 b = st.read(1000)
@@ -229,7 +243,15 @@ def w_image(pid, tier, seed, job):
             R.close_image(im)
         for rep in range(3 if tier == "quick" else 10):
             im = R.open_image(path)
-            sts = dict(streams_of(im))
+            if rep % 2 == 0:
+                sts = dict(streams_of(im))
+            else:
+                order = list(names)
+                rng.shuffle(order)                      # directories realised in another order than the traversal's
+                sts = {p: navigate(im, p) for p in order}
+            if not names:
+                R.close_image(im)
+                break
             chosen = rng.sample(names, min(len(names), rng.randint(2, 3)))
             got = {p: b"" for p in chosen}
             live = list(chosen)
